@@ -11,7 +11,7 @@ from ..alg import Sym, is_zero, Unsupported, PathRaised
 from .C09 import decide
 
 EM = "typhon/physics/em.py"
-EXPECT = {"C08.forms": 3, "C08.inverse": 2, "C08.ratio": 1, "C08.units": 8, "C08.perunit": 14, "C08.snell": 2,
+EXPECT = {"C08.forms": 3, "C08.inverse": 2, "C08.ratio": 1, "C08.units": 8, "C08.perunit": 14, "C08.snell": 3, "C08.dtype": 1, "C08.pure": 19,
           "C08.fresnel0": 1, "C08.brewster": 2}
 
 
@@ -134,6 +134,8 @@ def _reversal(e):
             if isinstance(ax, ast.Constant) and ax.value == 0:
                 return "axis0", e.args[0]
             return None, e
+    if isinstance(e, ast.Call) and (dotted(e.func) or "").split(".")[-1] in ("sort", "sorted", "unique", "msort") and e.args:
+        return "sorted", e.args[0]
     if isinstance(e, ast.Name):
         return "none", e
     return None, e
@@ -157,7 +159,10 @@ def rule_perunit(ctx):
         if kq is None or kg is None:
             raise AnalysisError("%s: unrecognised return form %s" % (name, norm(rets[0].value)))
         wl = "wavelength" in name
-        if wl:
+        if "sorted" in (kq, kg):
+            ok = False
+            want = "quantity and grid are permuted by the SAME reversal (sorting the grid on its own breaks the pairing for grids that are not ascending)"
+        elif wl:
             ok = kq == "axis0" and kg in ("axis0", "all")
             want = "both reversed along axis 0 (ascending frequency <-> ascending wavelength); the quantity may be multi-dimensional, so only axis 0"
         else:
@@ -166,7 +171,7 @@ def rule_perunit(ctx):
         ctx.ob("%s.reversal" % name, ok, "quantity: %s (%s), grid: %s (%s)" % (norm(qe), kq, norm(ge), kg), want, node=rets[0], func=f)
         # element-wise Jacobian: evaluate with reversal/reshape as identities
         hooks = {"subscript": lambda base, n, *_: base, "method": lambda base, n, *_: base if n.func.attr in ("reshape",) else NotImplemented,
-                 "flip": lambda a, *r, **k: a, "flipud": lambda a: a, "len": lambda *a: sp.Integer(1)}
+                 "flip": lambda a, *r, **k: a, "flipud": lambda a: a, "len": lambda *a: sp.Integer(1), "sort": lambda a, *r, **k: a}
         ev = Sym(ctx.repo, hooks=hooks)
         ev.hooks["subscript"] = _sub_hook
         y, g_ = sp.symbols("y g", positive=True)
@@ -284,6 +289,64 @@ def rule_fresnel(ctx):
            node=f.node, func=f)
 
 
+INT_TRUNCATING = {"reciprocal": "np.reciprocal of an integer array is integer division (1/500 -> 0)", "floor_divide": "integer division"}
+
+
+def rule_dtype(ctx):
+    ctx.rule("C08.dtype", "lint", "converters do not use ufuncs / operators that truncate for integer input")
+    bad = []
+    node0 = None
+    f0 = None
+    for name in CONV + ["planck", "planck_wavelength", "planck_wavenumber", "rayleighjeans", "rayleighjeans_wavelength", "radiance2planckTb",
+                        "radiance2rayleighjeansTb", "perfrequency2perwavelength", "perwavelength2perfrequency", "perfrequency2perwavenumber",
+                        "perwavenumber2perfrequency"]:
+        f = ctx.func(EM, name)
+        for n in walk_no_nested(f.node):
+            if isinstance(n, ast.Call) and (dotted(n.func) or "").split(".")[-1] in INT_TRUNCATING:
+                bad.append("%s: %s (%s)" % (name, norm(n), INT_TRUNCATING[(dotted(n.func) or "").split(".")[-1]]))
+                node0, f0 = node0 or n, f0 or f
+            if isinstance(n, ast.BinOp) and isinstance(n.op, ast.FloorDiv):
+                bad.append("%s: %s (floor division)" % (name, norm(n)))
+                node0, f0 = node0 or n, f0 or f
+    ctx.ob("em.integer_safe", not bad, "truncating operations: %s" % (bad or "none"), "true division throughout (np.divide / `/`): integer wavenumbers, frequencies or grids are legitimate input",
+           node=node0 or ctx.func(EM, "wavenumber2wavelength").node, func=f0 or ctx.func(EM, "wavenumber2wavelength"))
+
+
+def rule_snell_complex(ctx):
+    ctx.rule("C08.snell", "T5+T1", "complex-index branch of snell reduces to Snell's law when the imaginary part vanishes")
+    f = ctx.func(EM, "snell")
+    n1, s, d = sp.symbols("n1 s d", positive=True)      # s = sin(theta1), n2 = n1 * sqrt(s^2 + d): no total reflection
+    n2 = n1 * sp.sqrt(s ** 2 + d)
+    TH = sp.Symbol("theta1", positive=True)
+
+    def dec(t):
+        if t.startswith("not ") and "isreal(theta2)" in t:
+            return False
+        if "isreal(n1)" in t and "isreal(n2)" in t:
+            return False         # take the complex-n2 branch
+        if "isreal(n1)" in t:
+            return True
+        return None
+    hooks = {"sin": lambda u: s if u == TH * sp.pi / 180 else sp.sin(u), "arcsin": lambda u: sp.Function("ASIN")(u), "real": lambda u: u, "imag": lambda u: sp.Integer(0)}
+    ev = Sym(ctx.repo, decide=dec, hooks=hooks)
+    t2 = ev.call(EM, "snell", n1, n2, TH)
+    arg = None
+    for a in t2.atoms(sp.Function):
+        if a.func.__name__ == "ASIN":
+            arg = a.args[0]
+    if arg is None:
+        raise AnalysisError("snell (complex branch): arcsin not found in the result")
+    rem = sp.simplify(n2 * arg - n1 * s)
+    ok = rem == 0
+    ctx.ob("snell.complex_branch.limit", ok, "with Im(n2) = 0: n2 sin(theta2) - n1 sin(theta1) = %s" % rem,
+           "0: the complex-index formula continues the real one (n1 enters only through the relative index)", node=f.node, func=f)
+    ctx.models.append({"rule": "C08.snell", "identity": "complex limit", "cases": 1, "verdict": ok})
+
+
 def run(ctx):
-    for r in (rule_forms, rule_inverse, rule_ratio, rule_units, rule_perunit, rule_snell, rule_fresnel):
+    for r in (rule_forms, rule_inverse, rule_ratio, rule_units, rule_perunit, rule_snell, rule_snell_complex, rule_fresnel, rule_dtype):
         ctx.attempt(r, ctx)
+    from ..purity import rule_pure
+    ctx.attempt(rule_pure, ctx, "C08.pure", [(EM, n) for n in CONV + ["planck", "planck_wavelength", "planck_wavenumber", "rayleighjeans",
+                "rayleighjeans_wavelength", "radiance2planckTb", "radiance2rayleighjeansTb", "perfrequency2perwavelength", "perwavelength2perfrequency",
+                "perfrequency2perwavenumber", "perwavenumber2perfrequency", "snell", "fresnel"]])
